@@ -286,3 +286,43 @@ def is_res_read(n):
     if n.kind == "sub_read":
         return handle_of(n) is not None
     return False
+
+
+# ---------------------------------------------------------------------------
+# lock analysis (C09, C10, C13, C14)
+# ---------------------------------------------------------------------------
+def lock_id(lockval):
+    """Normalised identity of a lock value: col:<rho>:<tree> | buf | cls | <name>."""
+    name, key = lockval.args
+    if isinstance(key, Val):
+        owner = derives(key, "inst")
+        if owner is not None and key.kind != "const":
+            return f"col:{owner.args[1]}:{owner.args[2]}"
+    if "BUFFER" in str(name).upper():
+        return "buf"
+    if "cls" in str(name).lower():
+        return "cls"
+    return str(name)
+
+
+def lock_dataflow(g):
+    """node id -> set of lock states on entry; a state is a tuple of
+    (lock id, acquiring function, acquiring statement) tokens."""
+    def apply(n, st):
+        if n.kind == "lock":
+            lid = lock_id(n["lock"])
+            if n["op"] == "+":
+                if len(st) >= 8:
+                    return st
+                return st + ((lid, n.func, n.stmt),)
+            for i in range(len(st) - 1, -1, -1):
+                if st[i][0] == lid:
+                    return st[:i] + st[i + 1:]
+            return st
+        return st
+
+    return g.lock_states(apply, init=())
+
+
+def held_ids(state):
+    return {t[0] for t in state}
